@@ -300,11 +300,11 @@ func TestC09Range(t *testing.T) {
 		}
 
 		// ... and, rarely, of a size at which work may be split up.
-		idPattern := `[a-f]{1,2}`
+		idPattern := `[a-c0-2]{1,2}` // (IDs made of digits only are strings like the others)
 		huge := false
 
 		if many && rapid.IntRange(0, 7).Draw(t, "huge") == 0 && rapid.IntRange(0, 2).Draw(t, "huge-really") == 1 {
-			huge, n, idPattern = true, rapid.IntRange(129, 230).Draw(t, "n-huge"), `[a-f]{2,4}`
+			huge, n, idPattern = true, rapid.IntRange(129, 230).Draw(t, "n-huge"), `[a-c0-2]{2,4}`
 		}
 
 		items := []rangeItem{}
